@@ -132,6 +132,11 @@ def run(res, tier):
         res.eval(case, pl.chash(case, final2_h), trivial=False)
         exact = rn < 0
         mx = max(abs(x) for x in finalf)
+        if not (mx > 0) or any(x != x for x in final2):
+            # an empty or non-finite end state is not a state any continuation can be compared with: reported, never divided by
+            res.violate("C11/end-state-empty-or-non-finite/%s" % ("uninterrupted-run" if not (mx > 0) else "continued-run"), case,
+                        "max |f| of the uninterrupted run's final phase space = %r; non-finite values in the continued run's: %s" % (mx, any(x != x for x in final2)), replay=rp)
+            continue
         pop = d1["datasets"]["/BunchPopulation/data"]["data"]
         q = pop[step_r] if step_r < len(pop) else pop[-1]
         kb = "renorm<0" if exact else "renorm>=0"
